@@ -325,7 +325,7 @@ def harnesses(tier):
     mk_names = list(METAS)
     k = 0
     for kind in PIX_SHAPES + ['regpoly']:
-        for prec in ([1, 5] if q else [1, 3, 5, 8, 12]):
+        for prec in (([1, 5] + ([10] if kind in ('polygon', 'regpoly', 'circle', 'line') else [])) if q else [1, 3, 5, 8, 10, 12]):
             for inc in (['absent', False, 0] if q else ['absent', True, False, 0, 1]):
                 mk = mk_names[k % len(mk_names)]
                 if kind not in ('point',) and mk == 'point':
@@ -372,7 +372,7 @@ META = {
     'functions_encoded': ['regions.io.ds9.write._serialize_ds9/_serialize_region_ds9/_get_region_params/_get_frame_name/_make_meta_str',
                           'regions.io.ds9.meta._translate_metadata_to_ds9/_split_raw_metadata/_translate_ds9_to_visual',
                           'regions.io.ds9.read._parse_ds9 and everything below it (line splitting, lexers, templates, region construction)'],
-    'bounds': {'quick': {'pixel regions': 'all ten DS9 shapes + regular polygon; every coordinate and size symbolic (decimal tokens), precision in {1, 5}',
+    'bounds': {'quick': {'pixel regions': 'all ten DS9 shapes + regular polygon; every coordinate and size symbolic (decimal tokens), precision in {1, 5} (10 for polygon / regular polygon / circle / line)',
                          'sky regions': '7 shapes x 5 celestial frames, concrete coordinates / sizes, precision 6',
                          'angles': 'concrete: 0, 30, -45, 200 deg, 1 rad', 'include': ['absent', False, 0],
                          'metadata vocabularies': list(METAS), 'lists': '14 lists of 1-3 regions (shared / distinct metadata, all excluded, mixed frames, mixed frames with excluded members, unsupported members at each position)', 'literal fixed points': '10 shapes x 2 property lists (fill, dash, flags, tags, fonts) x image / fk5, each included and excluded'},
